@@ -578,7 +578,7 @@ func checkC20(c *Ctx) {
 					case IsCallTo(x, "(*flag.FlagSet).Var") && len(x.Call.Args) >= 2:
 						set := resolve(st, x.Call.Args[0])
 						if ld, ok := set.(*ssa.UnOp); ok && ld.Op == token.MUL {
-							if g, isG := ld.X.(*ssa.Global); isG && g.Pkg != nil && g.Pkg.Pkg.Path() == "flag" && g.Name() == "CommandLine" {
+							if g, isG := ld.X.(*ssa.Global); isG && g.Pkg != nil && g.Pkg.Pkg.Path() == "flag" && GN(g) == "CommandLine" {
 								return "register(" + id(resolve(st, x.Call.Args[1])) + ")"
 							}
 						}
